@@ -25,3 +25,59 @@ Lemma c_search_lo_tie : forall pos e, 0 <= pos -> 0 <= e -> c_search_lo pos e = 
 Proof. tie. Qed.
 Lemma c_search_hi_tie : forall pos e n, 0 <= pos -> 0 <= e -> 0 <= n -> c_search_hi pos e n = PGM_ADD_EPS pos e n.
 Proof. tie. Qed.
+
+(* ---- CompressedPGMIndex (CompressedModel.csearch_levels / compressed_search use these right-hand sides) ---- *)
+Ltac tie2 :=
+  intros; unfold cmp_search0_lo, cmp_search0_hi, cmp_route_lo, cmp_route_hi, cmp_search_lo, cmp_search_hi,
+    bkt_search_lo, bkt_search_hi, efi_search_lo, efi_search_hi, PGM_SUB_EPS, PGM_ADD_EPS;
+  repeat match goal with |- context [if ?b then _ else _] => destruct b eqn:? end; lia.
+Lemma cmp_search0_lo_tie : forall pos e, 0 <= pos -> 0 <= e -> cmp_search0_lo pos e = PGM_SUB_EPS pos e.
+Proof. tie2. Qed.
+Lemma cmp_search0_hi_tie : forall pos e n, 0 <= pos -> 0 <= e -> 0 <= n -> cmp_search0_hi pos e n = PGM_ADD_EPS pos e n.
+Proof. tie2. Qed.
+Lemma cmp_route_lo_tie : forall pos e, 0 <= pos -> 0 <= e -> cmp_route_lo pos e = PGM_SUB_EPS pos (e + 1).
+Proof. tie2. Qed.
+Lemma cmp_route_hi_tie : forall pos e ls, 0 <= pos -> 0 <= e -> 0 <= ls -> cmp_route_hi pos e ls = PGM_ADD_EPS pos e ls.
+Proof. tie2. Qed.
+Lemma cmp_search_lo_tie : forall pos e, 0 <= pos -> 0 <= e -> cmp_search_lo pos e = PGM_SUB_EPS pos e.
+Proof. tie2. Qed.
+Lemma cmp_search_hi_tie : forall pos e n, 0 <= pos -> 0 <= e -> 0 <= n -> cmp_search_hi pos e n = PGM_ADD_EPS pos e n.
+Proof. tie2. Qed.
+(* CompressedLevel constructor (CompressedModel.clevel_build): bitvector size, population, clamp bounds *)
+Lemma cmp_max_intercept_tie : forall pls off, cmp_max_intercept pls off = pls - off + 2.
+Proof. intros; unfold cmp_max_intercept; lia. Qed.
+Lemma cmp_intercepts_count_tie : forall d ne, cmp_intercepts_count d ne = d + ne + 1.
+Proof. intros; unfold cmp_intercepts_count; lia. Qed.
+Lemma cmp_clamp_tie : forall prev pls, cmp_clamp_lo prev = prev + 1 /\ cmp_clamp_hi pls = pls - 1.
+Proof. intros; unfold cmp_clamp_lo, cmp_clamp_hi; lia. Qed.
+(* BucketingPGMIndex / EliasFanoPGMIndex search (VariantsModel.bk_search / efi_search) *)
+Lemma bkt_search_lo_tie : forall pos e, 0 <= pos -> 0 <= e -> bkt_search_lo pos e = PGM_SUB_EPS pos e.
+Proof. tie2. Qed.
+Lemma bkt_search_hi_tie : forall pos e n, 0 <= pos -> 0 <= e -> 0 <= n -> bkt_search_hi pos e n = PGM_ADD_EPS pos e n.
+Proof. tie2. Qed.
+Lemma efi_search_lo_tie : forall pos e, 0 <= pos -> 0 <= e -> efi_search_lo pos e = PGM_SUB_EPS pos e.
+Proof. tie2. Qed.
+Lemma efi_search_hi_tie : forall pos e n, 0 <= pos -> 0 <= e -> 0 <= n -> efi_search_hi pos e n = PGM_ADD_EPS pos e n.
+Proof. tie2. Qed.
+(* BucketingPGMIndex::build_top_level (VariantsModel.build_top_level): cell width and table size *)
+Lemma bkt_step_tie : forall lk fk tls, bkt_step_arg lk fk tls = CEIL_INT_DIV (lk - fk) tls /\ bkt_step_min = 1.
+Proof. intros; unfold bkt_step_arg, bkt_step_min; split; reflexivity. Qed.
+Lemma bkt_pow2_top_size_tie : forall lk fk st, bkt_pow2_top_size lk fk st = CEIL_INT_DIV (lk - fk) st + 2.
+Proof. intros; unfold bkt_pow2_top_size; reflexivity. Qed.
+Lemma bkt_pow2_shift_tie : forall szk tls, bkt_pow2_shift szk tls = szk * 8 - BIT_WIDTH tls + 1.
+Proof. intros; unfold bkt_pow2_shift; lia. Qed.
+(* CEIL_INT_DIV is the ceiling of the quotient for the arguments the code passes (non-negative / positive) *)
+Lemma ceil_int_div_spec : forall x y, 0 <= x -> 0 < y -> CEIL_INT_DIV x y * y >= x /\ (CEIL_INT_DIV x y - 1) * y < x \/ (x = 0 /\ CEIL_INT_DIV x y = 0).
+Proof.
+  intros x y Hx Hy. unfold CEIL_INT_DIV. rewrite Z.quot_div_nonneg, Z.rem_mod_nonneg by lia.
+  pose proof (Z.div_mod x y ltac:(lia)) as E. pose proof (Z.mod_pos_bound x y Hy) as B.
+  destruct (x mod y >? 0) eqn:G.
+  - left. nia.
+  - assert (x mod y = 0) by lia. destruct (Z.eq_dec x 0) as [->|N]; [right; split; [reflexivity|]; rewrite Z.div_0_l by lia; reflexivity|].
+    left. nia.
+Qed.
+(* DynamicPGMIndex bulk-load constructor (DynModel.dyn_bulk) *)
+Lemma dyn_bulk_used_levels_tie : forall base n ml, dyn_bulk_used_levels base n ml = wrapU 8 (Z.max (dyn_ceil_log_base base n) ml + 1).
+Proof. intros; unfold dyn_bulk_used_levels; reflexivity. Qed.
+Lemma dyn_bulk_levels_count_tie : forall used ml, dyn_bulk_levels_count used ml = Z.max used 32 - ml + 1.
+Proof. intros; unfold dyn_bulk_levels_count; lia. Qed.
